@@ -230,6 +230,9 @@ let () =
         let line = of_model line in
         let line = if m = "parse+s" then line else cut line in
         print_endline (line ^ of_model st)) (read_records ())
+  | _ :: (("site" | "site-expr" | "site-stmt") as m) :: _ ->
+    let f = match m with "site" -> run_site_file | "site-expr" -> run_site_expr | _ -> run_site_stmt in
+    List.iter (fun r -> print_endline (of_model (f (to_model r)))) (read_records ())
   | _ :: "lit" :: kind :: _ ->
     (* one literal candidate per record: the model's token line, a TAB, and the spec oracle's verdict
        (0 = not a literal of that kind, otherwise the kind tag) *)
